@@ -17,6 +17,7 @@ pub mod life;
 pub mod readbuf;
 pub mod smoke;
 pub mod sq;
+pub mod wake;
 
 /// What a case reports when it ends.
 #[derive(Default)]
@@ -245,6 +246,7 @@ pub fn run(a: &Args) -> i32 {
         "addr" => run_comp(a, &mut addr::AddrComp),
         "life" => run_comp(a, &mut life::LifeComp),
         "sq" => run_comp(a, &mut sq::SqComp),
+        "wake" => run_comp(a, &mut wake::WakeComp),
         "bufs" => run_comp(a, &mut bufs::BufsComp),
         "composite" => run_comp(a, &mut composite::CompositeComp),
         "readbuf" => run_comp(a, &mut readbuf::ReadBufComp),
